@@ -245,3 +245,77 @@ def monitor_cases(scratch, base, trace_file, chk="Chk", name=None, timeout=1800)
     j["tlc_states"] = r["states"]
     j["tlc_generated"] = r["generated"]
     return j
+
+
+def conform(scratch, module, trace_files, kinds, consts_for, name, timeout=900, max_runs=None, corrupt=False):
+    """B-conf: validates recorded runs against an L1 model with silent internal
+    steps. trace_files: NDJSON trace files; kinds: dict kind -> (ReqStreamC,
+    RespStreamC). Returns dict(total, accepted, rejected=[run ids], states)."""
+    total, accepted, rejected, states = 0, 0, [], 0
+    for kind, flags in kinds.items():
+        # collect the in-process stream runs of this kind
+        lines = []
+        cur = None
+        keep = False
+        for tf in trace_files:
+            for line in open(tf):
+                j = json.loads(line)
+                if j["ev"] == "Begin":
+                    keep = j.get("tr") == "inproc" and j.get("kind") == kind
+                if keep:
+                    lines.append(j)
+        # a custom context type (the harness's deadline context) propagates to the
+        # library's derived contexts through a goroutine: in free-running mode the
+        # two sides see the deadline at different instants, which the model's
+        # single context flag cannot express; those runs are left to L0
+        skip = {j["run"] for j in lines if j["ev"] == "Cancel" and j.get("why") == "deadline"} & \
+               {j["run"] for j in lines if j["ev"] == "Begin" and j.get("mode") == "free"}
+        lines = [j for j in lines if j["run"] not in skip]
+        if not lines:
+            continue
+        if max_runs:
+            seen, cut = set(), len(lines)
+            for i, j in enumerate(lines):
+                if j["ev"] == "Begin":
+                    if len(seen) >= max_runs:
+                        cut = i
+                        break
+                    seen.add(j["run"])
+            lines = lines[:cut]
+        if corrupt:
+            # binding demonstration: alter one logged field (the id of a received
+            # message) of every run that has one; none may be accepted
+            changed = set()
+            for j in lines:
+                if j["run"] in changed:
+                    continue
+                if j["ev"] in ("CRecvRet", "HRecvRet") and j["res"]["k"] == "nil":
+                    j["msg"] = j["msg"] + 1
+                    changed.add(j["run"])
+            lines = [j for j in lines if j["run"] in changed]
+            if not lines:
+                continue
+        n = len(lines)
+        nb = n + 1
+        for i in range(n - 1, -1, -1):
+            lines[i]["nb"] = nb
+            if lines[i]["ev"] == "Begin":
+                nb = i + 1
+        runs = sorted({j["run"] for j in lines})
+        total += len(runs)
+        tfile = scratch.path("conf-%s-%s.ndjson" % (name, kind))
+        with open(tfile, "w") as f:
+            for j in lines:
+                f.write(json.dumps(j) + "\n")
+        out = scratch.path("conf-%s-%s.out.json" % (name, kind))
+        cfg = "SPECIFICATION TraceSpec\nCHECK_DEADLOCK FALSE\nPOSTCONDITION WriteOut\nCONSTANTS\n" + \
+              "".join(" %s = %s\n" % kv for kv in consts_for(flags).items())
+        r = run_tlc(scratch, module, cfg, env={"VERIF_TRACE": tfile, "VERIF_OUT": out}, workers=1,
+                    timeout=timeout, name="conf-%s-%s" % (name, kind), heap="8g")
+        if not os.path.exists(out):
+            raise Infra("B-conf run for %s failed:\n%s" % (kind, r["stdout"][-3000:]))
+        acc = set(json.load(open(out))["accepted"])
+        accepted += len(acc)
+        rejected += [x for x in runs if x not in acc]
+        states += r["states"]
+    return dict(total=total, accepted=accepted, rejected=rejected, states=states)
